@@ -209,7 +209,8 @@ func VerifySig(alg uint8, pub []byte, data, sig []byte) bool {
 		return rsa.VerifyPKCS1v15(key, h, f(data), sig) == nil
 	case *ecdsa.PublicKey:
 		_, _, f := hashFor(alg)
-		if len(sig)%2 != 0 || len(sig) == 0 {
+		// RFC 6605 s.4: r | s, each of exactly the curve's octet length
+		if len(sig) != 2*((key.Curve.Params().BitSize+7)/8) {
 			return false
 		}
 		if !key.Curve.IsOnCurve(key.X, key.Y) {
